@@ -748,6 +748,9 @@ pub struct Expect {
     pub alt: Option<(Vec<Vec<Vec<u8>>>, i32, usize)>,
 }
 
+/// The kernel's limit on one argument string, terminator included (MAX_ARG_STRLEN).
+pub const MAX_ARG_STRLEN: usize = 131072;
+
 pub fn cost(arg: &[u8]) -> usize {
     arg.len() + 1
 }
@@ -769,7 +772,10 @@ pub fn ref_batches(cfg: &Config, cmd: &[String], toks: &[Tok]) -> (Vec<(usize, u
     while i < toks.len() {
         let t = &toks[i];
         let count_ok = cfg.n.map_or(true, |n| count < n) && cfg.l.map_or(true, |l| lines < l);
-        let chars_ok = cfg.s.map_or(true, |s| chars + cost(&t.bytes) <= s);
+        // (Linux takes no single string longer than 128 KiB with its terminator: such an
+        // argument fits no command line at all)
+        let too_big = cost(&t.bytes) > MAX_ARG_STRLEN;
+        let chars_ok = cfg.s.map_or(true, |s| chars + cost(&t.bytes) <= s) && !too_big;
         if count_ok && chars_ok {
             count += 1;
             chars += cost(&t.bytes);
@@ -789,7 +795,7 @@ pub fn ref_batches(cfg: &Config, cmd: &[String], toks: &[Tok]) -> (Vec<(usize, u
         count = 0;
         lines = 0;
         chars = base;
-        if cfg.s.map_or(false, |s| chars + cost(&t.bytes) > s) {
+        if cfg.s.map_or(false, |s| chars + cost(&t.bytes) > s) || too_big {
             return (ranges, Some("argument-too-large"));
         }
     }
